@@ -14,7 +14,8 @@
 (***************************************************************************)
 EXTENDS Query, TLC
 
-CONSTANTS MaxCount            \* globals.maxTagCount (16 in production; small here so that truncation happens)
+CONSTANTS MaxCount,           \* globals.maxTagCount (16 in production; small here so that truncation happens)
+          Small               \* TRUE: a reduced vocabulary for the quick tier
 
 T_ab   == <<97, 98>>                                                      \* ab
 T_rx   == <<114, 101, 115, 116, 58, 120>>                                 \* rest:x
@@ -30,10 +31,11 @@ NSs == {NS_rest, NS_email}
 RawVocab == {T_ab, <<32, 65, 98, 32>> (* " Ab " *), <<97>> (* a *), <<95, 97, 98>> (* _ab *), T_rx,
              R_RY, T_ro, T_ea, T_eo, <<NULLCH>>}
 SmallVocab == {T_ab, T_rx, R_RY}
-RawLists == {<<>>} \cup [1..1 -> RawVocab] \cup [1..2 -> RawVocab] \cup [1..3 -> SmallVocab]
+PairVocab == IF Small THEN {T_ab, <<32, 65, 98, 32>>, T_rx, T_ea, T_eo, <<NULLCH>>} ELSE RawVocab \ {<<97>>, <<95, 97, 98>>}
+RawLists == {<<>>} \cup [1..1 -> RawVocab] \cup [1..2 -> PairVocab] \cup [1..3 -> SmallVocab]
 Raws == {[nil |-> TRUE, tags |-> <<>>]} \cup {[nil |-> FALSE, tags |-> l] : l \in RawLists}
 
-ServerTags == {T_rx, T_ro, T_ea, T_eo}
+ServerTags == IF Small THEN {T_ea, T_eo} ELSE {T_rx, T_ea, T_eo}
 
 Queries == { T_ab, T_rx,
              <<114, 101, 115, 116, 58, 121, 32, 97, 98>>,          \* rest:y ab
